@@ -5,6 +5,8 @@ use std::io::{BufRead, BufReader, BufWriter, Write};
 
 mod util;
 mod simple;
+mod val;
+mod lit;
 
 pub type Handler = fn(&J) -> J;
 
@@ -19,6 +21,7 @@ fn main() {
     let h: Handler = match family {
         "tok" => simple::tok,
         "esc" => simple::esc,
+        "lit" => lit::lit,
         _ => {
             eprintln!("unknown family {family}");
             std::process::exit(2);
